@@ -180,6 +180,41 @@ def witness_path(fn, start, goals, avoid=()):
     return None
 
 
+def edge_dominates(fn, s, x, b):
+    """every path from entry to b uses the CFG edge s->x"""
+    seen = set()
+    st = [0]
+    while st:
+        n = st.pop()
+        if n in seen:
+            continue
+        seen.add(n)
+        if n == b:
+            return False
+        for y in fn.succ(n):
+            if n == s and y == x:
+                continue
+            st.append(y)
+    return True
+
+
+def natural_loop(fn, h):
+    """blocks of the natural loop(s) headed by h (h dominates the source of a back edge to h)"""
+    dom = fn.dominators()
+    tails = [t for t in fn.pred(h) if t in dom and h in dom[t]]
+    if not tails:
+        return set()
+    loop = {h}
+    work = list(tails)
+    while work:
+        n = work.pop()
+        if n in loop:
+            continue
+        loop.add(n)
+        work.extend(p for p in fn.pred(n) if p in dom)
+    return loop
+
+
 def block_line(fn, b):
     blk = fn.blocks[b]
     t = blk['term']
@@ -194,19 +229,57 @@ def path_str(fn, path):
     return ' -> '.join('bb%d(L%d)' % (b, block_line(fn, b)) for b in path)
 
 
-def controlling_switches(fn, b):
-    """switch blocks s with a successor edge that decides whether b executes:
-    b is reachable from one successor of s but not post-dominated... (cheap version:
-    s dominates b, and some successor of s cannot reach b)"""
+def direct_control_edges(fn, b):
+    """edges (s, x) of switch blocks s such that b is control dependent on s through successor x:
+    b post-dominates x (or is x) and does not strictly post-dominate s"""
+    pd = fn.post_dominators()
     out = []
-    dom = fn.dominators().get(b, set())
-    for s in dom:
-        if s == b or switch_at(fn, s) is None:
+    for s in fn.entry_reachable():
+        if switch_at(fn, s) is None:
             continue
-        succs = fn.succ(s)
-        reach = [b in fn.reachable(x) for x in succs]
-        if any(reach) and not all(reach):
+        if s != b and b in pd.get(s, ()):  # b post-dominates s: no dependence
+            continue
+        for x in fn.succ(s):
+            if x == b or b in pd.get(x, ()):
+                out.append((s, x))
+    return out
+
+
+def controlling_edges(fn, b, transitive=True):
+    """(s, x) edges b is (transitively) control dependent on, innermost first"""
+    seen = set()
+    out = []
+    work = [b]
+    visited = {b}
+    while work:
+        cur = work.pop(0)
+        for s, x in direct_control_edges(fn, cur):
+            if (s, x) in seen:
+                continue
+            seen.add((s, x))
+            out.append((s, x))
+            if transitive and s not in visited:
+                visited.add(s)
+                work.append(s)
+    return out
+
+
+def controlling_switches(fn, b):
+    """switch blocks on which b is (transitively) control dependent"""
+    out = []
+    for s, x in controlling_edges(fn, b):
+        if s not in out:
             out.append(s)
+    return out
+
+
+def controlling_conds(fn, b, transitive=True):
+    """[(switch block, successor, edge_cond)] for the edges b is control dependent on"""
+    out = []
+    for s, x in controlling_edges(fn, b, transitive):
+        e = edge_cond(fn, s, x)
+        if e:
+            out.append((s, x, e))
     return out
 
 
